@@ -99,6 +99,7 @@ def bijective(t):
 def run(prop, seed, budget, ctx):
     from apischema import deserialize, serialize, ValidationError
     rnd = random.Random(seed * 31 + sum(map(ord, prop))); pool = Pool(); g = Gen(rnd, pool, None)
+    g.kinds = g.kinds + ["sequence"]
     types = [g.ty(3) for _ in range(300 * budget)]
     mod = build_module(pool.source(), f"{prop}_{seed}"); ns = dict(vars(mod))
     reqs, meta, failures, hist, distinct, samples = [], [], [], collections.Counter(), set(), []
@@ -123,6 +124,12 @@ def run(prop, seed, budget, ctx):
             if t.kind not in Gen.LEAVES: distinct.add(case_hash(t.lean, py_proto(d), so))
             for f in t.features(): hist["ty:" + f] += 1
             if len(samples) < 5 and t.kind not in Gen.LEAVES and len(repr(d)) < 100: samples.append({"type": t.py, "datum": repr(d), "sopts": so, "serialized": repr(s)[:200]})
+            if prop == "C04" and "abstract-collection" in getattr(t, "tags", ()) and isinstance(v, list) and s is not None:
+                # any sequence is a value of Sequence[T] / Collection[T]: the image does not depend on the concrete class
+                try:
+                    alt = serialize(tp, tuple(v), exclude_none=so["exclude_none"], exclude_defaults=so["exclude_defaults"], additional_properties=so["ap"])
+                    if not json_only(alt) or py_proto(alt) != py_proto(s): why.append("image-depends-on-the-concrete-sequence-class"); case["tuple_image"] = repr(alt)[:200]
+                except Exception as e: why.append("serialize-raises-on-a-tuple:" + type(e).__name__)
             if prop == "C04":
                 if "crash" in r: why.append("serialize-raises:" + r["crash"])
                 else:
